@@ -79,12 +79,11 @@ impl Display for TokenKind {
             TokenKind::Lit(_) => "literal",
             TokenKind::Dir(_) => "preprocessor directive",
             TokenKind::Reg(_) => "register",
-            TokenKind::Whitespace
-            | TokenKind::Comment
-            | TokenKind::Eof
-            | TokenKind::Byte(_)
-            | TokenKind::Breakpoint => {
-                unreachable!("whitespace, comment, eof, byte, breakpoint attempted to be displayed")
+            // Data directives and `.break` can be found where an operand is expected
+            TokenKind::Byte(_) => "data directive",
+            TokenKind::Breakpoint => "breakpoint directive",
+            TokenKind::Whitespace | TokenKind::Comment | TokenKind::Eof => {
+                unreachable!("whitespace, comment, eof attempted to be displayed")
             }
         };
         f.write_str(lit)
